@@ -309,145 +309,9 @@ Proof.
   unfold measure, rq_fuel, Zlen in *. destruct (is_none (s_cur st)); lia.
 Qed.
 
-(* UNFINISHED (kept for completion, not checked): the induction gluing break_case, handle_data_split and the
-   complete-frame step into  rq_loop f st (x ++ b) ~ resume b (rq_loop f st x).  The cases 'in the middle of a
-   frame' (break / DATA payload split / complete payload, blocked, error) go through as written below; the case
-   'header parsed in this iteration' (same three sub-cases after pull_app) and the FIN-late lemma are missing.
-
-Lemma loop_split : forall f st x b evs,
-  LH st -> measure st (x ++ b) < Z.of_nat f ->
-  requiv (rq_loop f fx O cl false st (x ++ b) evs)
-         (resume b (rq_loop f fx O cl false st x evs)).
-Proof.
-  induction f; intros st x b evs HL Hm.
-  { unfold measure in Hm. pose proof (Zlen_nonneg (x ++ b)). destruct (is_none (s_cur st)); lia. }
-  pose proof HL as (L1 & L2 & L3 & L4 & L5).
-  destruct x as [|x0 x'].
-  { (- nothing of the first delivery left -)
-    cbn [rq_loop is_nil]. apply (break_case (S f) st [] b evs HL Hm). }
-  remember (x0 :: x') as x eqn:Ex.
-  assert (Hx : is_nil x = false) by (subst; reflexivity).
-  assert (Hxb : is_nil (x ++ b) = false) by (subst; reflexivity).
-  assert (Hlx : 0 < Zlen x) by (subst; unfold Zlen; cbn [length]; lia).
-  (- a break that leaves the state untouched -)
-  assert (BRK : rq_loop (S f) fx O cl false st x evs = RVal evs (set_buf st x) ->
-                requiv (rq_loop (S f) fx O cl false st (x ++ b) evs)
-                       (resume b (rq_loop (S f) fx O cl false st x evs))).
-  { intros ->. apply break_case; assumption. }
-  destruct (s_cur st) as [[t0 n0]|] eqn:Ec.
-  - (- in the middle of frame (t0, n0) -)
-    destruct (negb (t0 =? 0) && (Zlen x <? n0)) eqn:Ebrk.
-    + apply BRK. cbn [rq_loop]. rewrite Hx, Ec. cbn [is_none andb].
-      replace (Z.min n0 (Zlen x) <? n0) with (Zlen x <? n0) by lia. rewrite Ebrk.
-      rewrite <- Ec, set_cur_same. reflexivity.
-    + destruct (Zlen x <? n0) eqn:Eshort.
-      * (- DATA frame, payload not complete in x -)
-        assert (t0 = 0) by lia. subst t0.
-        assert (Hh : s_hstate st = 1) by (eapply L5; eauto).
-        cbn [rq_loop]. rewrite Hx, Hxb, Ec. cbn [is_none andb Z.eqb negb].
-        rewrite L4. cbn [andb]. rewrite !data_eq.
-        replace (s_hstate (set_cur st _)) with 1 by (destruct st; cbn in *; lia).
-        replace (s_hstate (set_cur st _)) with 1 by (destruct st; cbn in *; lia).
-        cbn [Z.eqb Pos.eqb].
-        replace (Z.min n0 (Zlen x)) with (Zlen x) by lia.
-        rewrite (ztake_all (Zlen x) x) by lia. rewrite (zdrop_all (Zlen x) x) by lia.
-        replace (n0 - Zlen x =? 0) with false by lia.
-        (- right-hand side: the loop stops on the empty rest -)
-        assert (Hstop : forall g s e, rq_loop g fx O cl false s [] e = RVal e (set_buf s [])).
-        { destruct g; reflexivity. }
-        rewrite Hstop. unfold resume.
-        match goal with |- requiv _ (if s_blocked ?s then _ else _) =>
-          replace (s_blocked s) with false by (destruct st; cbn in *; congruence);
-          replace (s_session s) with (@None Z) by (destruct st; cbn in *; congruence);
-          replace (s_buf s) with (@nil Z) by (destruct st; reflexivity) end.
-        cbn [app].
-        set (c := Z.min n0 (Zlen (x ++ b))).
-        assert (Hc : Zlen x <= c) by (unfold c; rewrite Zlen_app; pose proof (Zlen_nonneg b); lia).
-        rewrite (ztake_app_ge c x b Hc), (zdrop_app_ge c x b Hc).
-        destruct (is_nil b) eqn:Enb.
-        { (- nothing more arrived -)
-          apply is_nil_true in Enb. subst b. unfold c. rewrite app_nil_r. replace (Z.min n0 (Zlen x) - Zlen x) with 0 by lia.
-          cbn [ztake zdrop Z.to_nat firstn skipn]. rewrite app_nil_r.
-          replace (Z.min n0 (Zlen x)) with (Zlen x) by lia.
-          replace (n0 - Zlen x =? 0) with false by lia.
-          rewrite !Hstop. cbn [requiv]. split; [reflexivity|].
-          destruct st; reflexivity. }
-        assert (Hlb : 0 < Zlen b) by (destruct b; [discriminate|unfold Zlen; cbn [length]; lia]).
-        (- one more iteration on the right-hand side -)
-        match goal with |- requiv _ (rq_loop _ _ _ _ _ ?s _ _) =>
-          assert (Hs : s_cur s = Some (0, n0 - Zlen x)) by (destruct st; reflexivity);
-          assert (Hsh : s_hstate s = 1) by (destruct st; cbn in *; lia);
-          assert (Hse : s_ended s = false) by (destruct st; cbn in *; congruence) end.
-        match goal with |- requiv _ ?R => set (rhs := R) end.
-        unfold rhs. clear rhs. unfold rq_fuel. remember (S (length b + length b)) as g2 eqn:Eg. cbn [rq_loop].
-        rewrite Enb.
-        rewrite Hs. cbn [is_none andb Z.eqb negb]. rewrite Hse. cbn [andb].
-        rewrite data_eq.
-        match goal with |- context [s_hstate (set_cur ?s ?cc)] =>
-          replace (s_hstate (set_cur s cc)) with 1 by (destruct st; cbn in *; lia) end.
-        cbn [Z.eqb Pos.eqb].
-        assert (Hcc : c - Zlen x = Z.min (n0 - Zlen x) (Zlen b)) by (unfold c; rewrite Zlen_app; lia).
-        rewrite <- Hcc.
-        replace (n0 - Zlen x - (c - Zlen x)) with (n0 - c) by lia.
-        rewrite (loop_acc f), (loop_acc g2).
-        apply requiv_prepend.
-        { rewrite !norm_app, <- app_assoc. f_equal. destruct st. apply norm_data_split. }
-        match goal with |- requiv (rq_loop _ _ _ _ _ ?s1 _ _) (rq_loop _ _ _ _ _ ?s2 _ _) =>
-          replace s2 with s1 end.
-        { match goal with |- requiv (rq_loop _ _ _ _ _ ?s1 ?bb _) _ =>
-            rewrite (loop_fuel f g2 false s1 bb []) end; [apply requiv_refl| |].
-          - (- fuel left on the left -) 
-            unfold measure in *. rewrite Ec in Hm. cbn [is_none] in Hm. rewrite Zlen_app in Hm.
-            pose proof (Zlen_zdrop_le (c - Zlen x) b).
-            match goal with |- context [is_none ?o] => destruct (is_none o) end; lia.
-          - unfold measure. rewrite Eg. assert (Hzd := Zlen_zdrop (c - Zlen x) b ltac:(lia)). unfold Zlen in *.
-            match goal with |- context [is_none ?o] => destruct (is_none o) end; lia. }
-        destruct st; cbn -[Zlen Z.add Z.sub Z.min]. unfold set_cur, set_clen, set_buf; cbn -[Zlen Z.add Z.sub Z.min].
-        cbn in L1. subst. f_equal. rewrite Zlen_app. lia.
-      * (- the frame payload is complete in x -)
-        assert (Hn : n0 <= Zlen x) by lia.
-        cbn [rq_loop]. rewrite Hx, Hxb, Ec. cbn [is_none andb].
-        replace (Z.min n0 (Zlen (x ++ b))) with n0 by (rewrite Zlen_app; pose proof (Zlen_nonneg b); lia).
-        replace (Z.min n0 (Zlen x)) with n0 by lia.
-        replace (n0 <? n0) with false by lia. rewrite andb_false_r.
-        rewrite (ztake_app_le n0 x b Hn), (zdrop_app_le n0 x b Hn).
-        rewrite L4. cbn [andb].
-        destruct (handle_rp_frame fx O cl t0 (Some (ztake n0 x)) _ false) eqn:Hh.
-        -- (- goes on: induction hypothesis -)
-           apply IHf.
-           ++ eapply LH_after; [exact HL|eapply handle_pres; exact Hh|].
-              intros n Hc. destruct (n0 - n0 =? 0) eqn:E0; [discriminate|lia].
-           ++ pose proof (handle_cur _ _ _ _ _ _ Hh) as Hcur.
-              assert (Hd := decrease_cont st st0 t0 n0 x Ec Hlx).
-              replace (Z.min n0 (Zlen x)) with n0 in Hd by lia.
-              assert (s_cur st0 = (if n0 - n0 =? 0 then None else Some (t0, n0 - n0))).
-              { rewrite Hcur. destruct st; reflexivity. }
-              specialize (Hd H). unfold measure in *. rewrite Ec in *. cbn [is_none] in *.
-              rewrite Zlen_app in *. pose proof (Zlen_zdrop_le n0 x).
-              destruct (is_none (s_cur st0)); lia.
-        -- (- blocked -)
-           apply handle_blocked_pres in Hh. destruct Hh as [(h & k & e & bp & ->) _].
-           unfold resume. cbn. split; [reflexivity|]. destruct st; cbn in *. subst. reflexivity.
-        -- cbn. reflexivity.
-        -- cbn. reflexivity.
-  - (- at a frame boundary: parse the header -)
-    destruct (pull_uint_var x) as [[t x1]|] eqn:P1.
-    2:{ apply BRK. cbn [rq_loop]. rewrite Hx, Ec, P1. reflexivity. }
-    destruct (pull_uint_var x1) as [[n x2]|] eqn:P2.
-    2:{ apply BRK. cbn [rq_loop]. rewrite Hx, Ec, P1, P2. reflexivity. }
-    pose proof (pull_app _ b _ _ P1) as Q1. pose proof (pull_app _ b _ _ P2) as Q2.
-    cbn [rq_loop]. rewrite Hx, Hxb, Ec, P1, P2, Q1, Q2. cbn [is_none andb].
-    destruct (t =? 65) eqn:Ewt.
-    { (- WEBTRANSPORT_STREAM -)
-      unfold resume. cbn -[norm]. rewrite !orb_false_r.
-      split; [|destruct st; cbn in *; subst; reflexivity].
-      rewrite !norm_app. f_equal. destruct st; cbn.
-      destruct x2, b; cbn; rewrite ?app_nil_r, ?map_app; reflexivity. }
-    TODO_rest.
-Abort.
-
-
-*)
+(* The induction gluing break_case, handle_data_split and the complete-frame step
+   (rq_loop f st (x ++ b) ~ resume b (rq_loop f st x)) is loop_split in proofs/H3Loop.v; the FIN-late lemma and the
+   statements about whole deliveries are in proofs/H3Recv.v and proofs/H3Fin.v. *)
 
 End Fixed.
 
